@@ -8,7 +8,7 @@ ENV=dict(os.environ, GOFLAGS='-mod=mod', GOPROXY='off')
 def sh(cmd, cwd=None, timeout=3600):
     p=subprocess.run(cmd, shell=True, cwd=cwd, env=ENV, capture_output=True, text=True, timeout=timeout)
     return p.returncode, p.stdout+p.stderr
-sh('rm -rf %s %s && git clone -q /repo %s && rsync -a --exclude .git --exclude gvc --exclude seeded /verif/ %s/'%(CLONE,VC,CLONE,VC))
+sh('rm -rf %s %s && git clone -q /repo %s && rsync -a --exclude .git --exclude /gvc/vendor --exclude /seeded --exclude /replays /verif/ %s/'%(CLONE,VC,CLONE,VC))
 props=[c['property_id'] for c in json.load(open('/verif/MANIFEST.json'))['checks']]
 names=sys.argv[1:] or sorted(os.path.basename(p) for p in glob.glob('/verif/benign/R*'))
 res={}
